@@ -50,7 +50,7 @@ APPLICABLE = {
     "write": ["crash_before", "crash_after", "oserror", "short_write"],
     "rename": ["crash_before", "crash_after", "oserror"], "replace": ["crash_before", "crash_after", "oserror"], "unlink": ["crash_before", "crash_after", "oserror"],
     "fsync": ["crash_before", "oserror"],
-    "fmt_black": ["crash_before", "fmt_raise", "fmt_black_truncated"], "fmt_cmd": ["crash_before", "fmt_exit1", "fmt_garbage", "fmt_empty"],
+    "fmt_black": ["crash_before", "fmt_raise", "fmt_black_truncated"], "fmt_cmd": ["crash_before", "fmt_exit1", "fmt_garbage", "fmt_empty", "fmt_killed"],
 }
 IMPORTANT = {"open_trunc", "open_write", "write", "write_text", "write_bytes", "rename", "replace", "unlink", "fmt_black", "fmt_cmd"}
 
